@@ -71,8 +71,11 @@ _Static_assert(sizeof(src_procs_map) / sizeof(*src_procs_map) == M_SRC_TYPE_END,
 static void src_priv_dtor(void *data) {
     ev_src_t *t = (ev_src_t *)data;
 
-    /* If a fd is deregistered for a RUNNING module, stop polling on it */
-    if (m_mod_is(t->mod, M_MOD_RUNNING)) {
+    /*
+     * If a fd is deregistered for a RUNNING module, stop polling on it.
+     * Sources that are not polled anymore (t->ev == NULL) may have outlived their module: do not touch it.
+     */
+    if (t->ev && m_mod_is(t->mod, M_MOD_RUNNING)) {
         M_MOD_CTX(t->mod);
         poll_set_new_evt(&c->ppriv, t, RM);
     }
@@ -430,6 +433,12 @@ int deregister_mod_src(m_mod_t *mod, m_src_types type, void *src_data) {
         break;
     default:
         return -EINVAL;
+    }
+    /* Stop polling on it right now: it may stay alive as long as one of its events does */
+    ev_src_t *src = m_bst_find(mod->srcs[type], &key);
+    if (src) {
+        M_MOD_CTX(mod);
+        poll_set_new_evt(&c->ppriv, src, RM);
     }
     return m_bst_remove(mod->srcs[type], &key);
 }
